@@ -73,6 +73,22 @@ CHECKS = {
          "§7 C20", "Trusted base: ibc-go packet (de)serialisation used to decode the recorded packet (cross-checked by a hand-written wire reader)."),
 }
 
+# sentences added in session 3 (what the check covers beyond the text above)
+EXTRA = {
+ "C01": " Genesis part: the exported state with one batch in two baskets must pass the module's genesis validation and seven documents with one supply or basket holding off by one unit must be refused. A second seed of the 34-digit scenario carries a 35-digit retired balance that the marketplace and basket paths add to.",
+ "C02": " The 34/35-digit amount scenario is part of this check too (a helper that rounds at 34 digits makes T+R+C drift from what was issued).",
+ "C04": " The 34/35-digit amount scenario is part of this check too: a 35-digit retired balance written by an issuance must not lose its last place when a purchase with auto-retire, a Take with retire-on-take or a Send with a retired amount adds to it.",
+ "C05": " A second genesis seed holds basket balance rows no message writes (a balance spelled with one decimal place beyond the precision, an all-zero row).",
+ "C06": " A scenario with 101 orders of one seller lapsing in one block and orders of one seller for two batches adjacent in the expiration index is included.",
+ "C12": " A scenario with 101 orders of one seller lapsing in one block (more than any page size) and orders of one seller for two batches adjacent in the expiration index is included.",
+ "C14": " The genesis part also offers documents with an APPENDED all-zero row (basket balance, balance, supply) that names a batch which does not exist: such a row changes no sum, so only the reference check can refuse it.",
+ "C15": " A small scenario over 64- and 33-byte digests that agree on their first 40 bytes is included.",
+ "C16": " A small scenario over 64- and 33-byte digests that agree on their first 40 bytes is included.",
+ "C17": " The deprecated aggregate Params query is compared part by part with the stored singletons and tables, the alphabet contains the governance messages that change them, and a seed imported from a genesis document carries absent zero amounts, a project whose id is not the prefix of its batches' denoms and legacy data rows (by-hash queries are not asked for content hashes that fail the stateless validation).",
+ "C18": " A sub-product covers the bridge-chain allowlist: names in several spellings x {governance message, genesis}; on every accepted configuration Bridge must succeed with the target as configured and as listed, an unlisted target must fail, and removal by the configured spelling must empty the list.",
+ "C19": " On every state of the Engine A part no stored balance, supply, basket balance or order quantity is negative, including the histories of a genesis whose open orders exceed the seller's escrow.",
+}
+
 BASELINE_CMD = "for m in $(cat /w/out/gomods.txt); do MF=$(cd /repo/$m && . /w/out/goenv.sh && gomodflag); (cd /repo/$m && go test $MF -json -vet=off -count=1 -timeout 25m ./...); done"
 
 PENDING_REASON = "check not built yet in this session (under construction; see DESIGN.md §7 for the planned model-checking design)"
@@ -84,6 +100,7 @@ def main():
         pid = p["id"]
         if pid in CHECKS:
             eng, cat, tech, text, ref, note = CHECKS[pid]
+            text += EXTRA.get(pid, "")
             checks.append({
                 "property_id": pid,
                 "quick_cmd": f"scripts/check.sh {pid} quick",
